@@ -9,8 +9,10 @@ from . import ngorun, replay
 
 def main(path):
     cfg = json.load(open(os.path.join(path, "config.json")))
+    if cfg.get("kind") in ("c04",):
+        cfg["kind"] = "e1"
     if cfg.get("kind") not in (None, "e1"):
-        mod = __import__("vf.p_" + cfg["property"], fromlist=["replay"])
+        mod = __import__("vf.p_" + {"c07": "C07", "c07alloc": "C07", "c18": "C18", "c19": "C19", "c20": "C20"}.get(cfg["kind"], cfg["property"]), fromlist=["replay"])
         return mod.replay(path, cfg)
     src = open(os.path.join(path, "source.lp")).read()
     inst = open(os.path.join(path, "instance.lp")).read()
